@@ -169,7 +169,7 @@ func checkSerializeFraming(c *Ctx, r *Report) {
 		} else {
 			want = `append(append(fmt.Sprintf("#%d\n",{len(` + payload + `)}),` + payload + `),"\n##")`
 		}
-		if framed != want {
+		if framed != want && normChunkHeader(framed) != want {
 			probs = append(probs, fmt.Sprintf("framed bytes are %s, specified %s", framed, want))
 		}
 		// raw copy
@@ -649,4 +649,34 @@ func uniqStrings(s []string) []string {
 		}
 	}
 	return out
+}
+
+// normChunkHeader rewrites the chunk header spelled as a concatenation -- (("#"+strconv.Itoa(N))+"\n") -- into the
+// formatted spelling the specification is written in -- fmt.Sprintf("#%d\n",{N}).
+func normChunkHeader(k string) string {
+	const pre = `(("#"+strconv.Itoa(`
+	for {
+		i := strings.Index(k, pre)
+		if i < 0 {
+			return k
+		}
+		j := i + len(pre)
+		depth := 1
+		for j < len(k) && depth > 0 {
+			switch k[j] {
+			case '(':
+				depth++
+			case ')':
+				depth--
+			}
+			j++
+		}
+		// k[i+len(pre) : j-1] is N; what follows must be `)+"\n")`
+		const post = `)+"\n")`
+		if depth != 0 || !strings.HasPrefix(k[j:], post) {
+			return k
+		}
+		n := k[i+len(pre) : j-1]
+		k = k[:i] + `fmt.Sprintf("#%d\n",{` + n + `})` + k[j+len(post):]
+	}
 }
